@@ -99,7 +99,7 @@ func (s *State) freshVal(t types.Type, hint string) Val {
 // ---------- strings ----------
 
 var additiveStr = []string{"blen", "nl", "vlen"}
-var conjStr = []string{"clean", "wf", "sgr0", "digits", "noNL", "noCTL"}
+var conjStr = []string{"clean", "wf", "sgrch", "digits", "noNL", "noCTL"}
 
 // strAtom: one piece of a flattened concatenation: a literal (text) or an opaque term.
 type strAtom struct {
@@ -171,28 +171,50 @@ func (s *State) cat(a, b Val) Val {
 }
 
 func (s *State) catFacts(r, a, b string) {
-	for _, f := range []string{"blen", "nl", "vlen"} {
+	for _, f := range []string{"blen", "nl"} {
 		s.assume(eq(app(f, r), app("+", app(f, a), app(f, b))))
 	}
-	for _, f := range []string{"clean", "wf", "digits", "noNL", "noCTL"} {
+	for _, f := range []string{"clean", "digits", "noNL", "noCTL", "sgrch"} {
 		s.assume(eq(app(f, r), and(app(f, a), app(f, b))))
 	}
+	// the cell language is closed under concatenation; the converse fails ("\x1b[" ++ "1m" ++ ...), and visible
+	// lengths add up only when both halves consist of whole cells
+	bothWf := and(app("wf", a), app("wf", b))
+	s.assume(implies(bothWf, and(app("wf", r), eq(app("vlen", r), app("+", app("vlen", a), app("vlen", b))), eq(app("nsc", r), app("+", app("nsc", a), app("nsc", b))))))
+	s.assume(implies(and(app("sgrs", a), app("sgrs", b)), app("sgrs", r)))
 	s.strBasics(a)
 	s.strBasics(b)
 	s.strBasics(r)
-	s.assume(implies(and(app("sgr", a), app("sgr", b)), app("sgr", r)))
+	if s.c.useLines {
+		s.assume(implies(bothWf, and(
+			eq(app("fstl", r), ite(eq(app("nl", a), "0"), app("+", app("vlen", a), app("fstl", b)), app("fstl", a))),
+			eq(app("lstl", r), ite(eq(app("nl", b), "0"), app("+", app("lstl", a), app("vlen", b)), app("lstl", b))),
+			eq(app("mxl", r), app("max2", app("max2", app("mxl", a), app("mxl", b)), app("+", app("lstl", a), app("fstl", b)))),
+			eq(app("mmin", r), ite(eq(app("nl", a), "0"), app("mmin", b), ite(eq(app("nl", b), "0"), app("mmin", a),
+				app("min2", app("min2", app("mmin", a), app("mmin", b)), app("+", app("lstl", a), app("fstl", b)))))))))
+	}
+	s.cellAutomatonFacts(r)
 }
 
 func (s *State) strBasics(a string) {
-	s.assume(and(app("<=", "0", app("blen", a)), app("<=", "0", app("nl", a)), app("<=", "0", app("vlen", a))))
+	s.assume(and(app("<=", "0", app("blen", a)), app("<=", "0", app("nl", a)), app("<=", "0", app("vlen", a)), app("<=", "0", app("nsc", a)), app("<=", app("nsc", a), app("vlen", a))))
 	s.assume(and(app("<=", app("blen", a), "9223372036854775807"), app("<=", app("+", app("nl", a), app("vlen", a)), app("blen", a))))
 	s.assume(eq(app("noNL", a), eq(app("nl", a), "0")))
 	s.assume(implies(app("clean", a), app("wf", a)))
-	s.assume(implies(app("digits", a), and(app("clean", a), app("noNL", a), app("noCTL", a))))
+	s.assume(implies(app("digits", a), and(app("clean", a), app("noNL", a), app("noCTL", a), app("sgrch", a))))
 	s.assume(implies(app("noCTL", a), and(app("clean", a), app("noNL", a))))
-	s.assume(implies(app("sgr", a), and(app("noCTL", a), app(">=", app("blen", a), "1"))))
-	s.assume(implies(and(app("digits", a), app(">=", app("blen", a), "1")), app("sgr", a)))
+	s.assume(implies(app("sgrch", a), app("noCTL", a)))
+	s.assume(eq(app("sgr", a), and(app("sgrch", a), app(">=", app("blen", a), "1"), not(eq(a, s.c.lit("0"))))))
 	s.assume(eq(eq(app("blen", a), "0"), eq(a, "emp")))
+	// a cell-language string without cells and newlines is empty; a bare visible rune is one clean cell
+	s.assume(implies(and(app("wf", a), eq(app("vlen", a), "0"), eq(app("nl", a), "0")), eq(a, "emp")))
+	s.assume(implies(app("p1", a), and(app("clean", a), eq(app("vlen", a), "1"), eq(app("nl", a), "0"), app("<=", "1", app("blen", a)), app("<=", app("blen", a), "4"))))
+	s.assume(implies(app("sgrs", a), eq(app("nl", a), "0")))
+	if s.c.useLines {
+		s.assume(and(app("<=", "0", app("fstl", a)), app("<=", app("fstl", a), app("mxl", a)), app("<=", "0", app("lstl", a)), app("<=", app("lstl", a), app("mxl", a)), app("<=", app("mxl", a), app("vlen", a))))
+		s.assume(implies(eq(app("nl", a), "0"), and(eq(app("fstl", a), app("vlen", a)), eq(app("lstl", a), app("vlen", a)), eq(app("mxl", a), app("vlen", a)))))
+		s.assume(and(app("<=", "0", app("mmin", a)), implies(app("<=", app("nl", a), "1"), eq(app("mmin", a), "9223372036854775808"))))
+	}
 }
 
 // ---------- interfaces ----------
@@ -629,6 +651,11 @@ func (s *State) sliceOp(instr *ssa.Slice) Val {
 		Len:  s.define("sl", sInt, subT(hi, lo)),
 		Cap:  s.define("sc", sInt, subT(capv, lo)),
 	}}
+	if c.cellsMode {
+		if et := x.T.Underlying().(*types.Slice).Elem(); kindOf(et) == kSlice && kindOf(et.Underlying().(*types.Slice).Elem()) == kStr {
+			s.cellsSliceFacts(x, r)
+		}
+	}
 	return r
 }
 
@@ -719,7 +746,16 @@ func (s *State) step(instr ssa.Instruction) {
 			goal := and(app("<=", "0", idx.S), app("<", idx.S, base.Sl.Len))
 			s.oblige("bounds", x, c.ordinal(x, "bounds"), goal, "index out of range", false)
 			s.assume(goal)
-			s.env[x] = Val{T: x.Type(), Addr: s.sliceElemAddr(base, idx.S)}
+			ea := s.sliceElemAddr(base, idx.S)
+			if c.cellsMode {
+				switch et := ea.Elem; {
+				case kindOf(et) == kStr:
+					s.cellsInnerIndex(ea.Ref, ea.Idx)
+				case kindOf(et) == kSlice && kindOf(et.Underlying().(*types.Slice).Elem()) == kStr:
+					s.cellsOuterIndex(ea.Ref, base.Sl.Off, ea.Idx, et)
+				}
+			}
+			s.env[x] = Val{T: x.Type(), Addr: ea}
 		case kPtr:
 			at := derefType(base.T).Underlying().(*types.Array)
 			a := s.addrOfPtr(x, base)
@@ -776,6 +812,9 @@ func (s *State) step(instr ssa.Instruction) {
 		}
 		s.frameCheck(x, a)
 		s.lockCheck(x, a)
+		if c.cellsMode && a.Space == "elem" && len(a.Path) == 0 {
+			s.cellsStoreCheck(x, a.Ref, a.Elem)
+		}
 		s.storeAddr(a, v)
 	case *ssa.BinOp:
 		s.env[x] = s.binop(x)
